@@ -490,6 +490,16 @@ impl<'de, R: Read<'de>> Parser<R> {
             .and_then(|o| o.ok_or_else(|| self.peek_error(ErrorCode::EofWhileParsingValue)))
     }
 
+    /// Accounts for one more level of nesting, failing if the recursion limit
+    /// is reached. The caller restores `remaining_depth` when leaving the level.
+    fn enter_nested(&mut self) -> Result<()> {
+        if self.remaining_depth <= 1 {
+            return Err(self.peek_error(ErrorCode::RecursionLimitExceeded));
+        }
+        self.remaining_depth -= 1;
+        Ok(())
+    }
+
     fn parse_token(&mut self, peek: u8) -> Result<Token> {
         let token = match peek {
             b'#' => {
@@ -689,10 +699,7 @@ impl<'de, R: Read<'de>> Parser<R> {
                 Value::Bytes(self.parse_byte_list(close)?.into_boxed_slice())
             }
             Token::VecOpen(close) => {
-                self.remaining_depth -= 1;
-                if self.remaining_depth == 0 {
-                    return Err(self.peek_error(ErrorCode::RecursionLimitExceeded));
-                }
+                self.enter_nested()?;
 
                 let ret = self.parse_vector(close);
 
@@ -704,10 +711,7 @@ impl<'de, R: Read<'de>> Parser<R> {
                 }
             }
             Token::ListOpen(close) => {
-                self.remaining_depth -= 1;
-                if self.remaining_depth == 0 {
-                    return Err(self.peek_error(ErrorCode::RecursionLimitExceeded));
-                }
+                self.enter_nested()?;
 
                 let ret = self.parse_list(close);
 
@@ -772,10 +776,7 @@ impl<'de, R: Read<'de>> Parser<R> {
                 self,
             ),
             Token::VecOpen(close) => {
-                self.remaining_depth -= 1;
-                if self.remaining_depth == 0 {
-                    return Err(self.peek_error(ErrorCode::RecursionLimitExceeded));
-                }
+                self.enter_nested()?;
 
                 let ret = self.parse_vector_meta(close);
 
@@ -789,10 +790,7 @@ impl<'de, R: Read<'de>> Parser<R> {
                 }
             }
             Token::ListOpen(close) => {
-                self.remaining_depth -= 1;
-                if self.remaining_depth == 0 {
-                    return Err(self.peek_error(ErrorCode::RecursionLimitExceeded));
-                }
+                self.enter_nested()?;
 
                 let ret = self.parse_list_meta(close);
 
